@@ -143,6 +143,7 @@ int main (void) {
     } else if (line[0] == 'C') {
       char fname[128];
       char *hex;
+    call_cmd:;
       size_t n, i;
       unsigned char *buf;
       MIR_item_t f;
@@ -208,6 +209,80 @@ int main (void) {
       fwrite (obuf, 1, olen, stdout);
       printf ("\n");
       free (obuf);
+    } else if (line[0] == 'I') { /* I : new context, scan current text, load every module, no link */
+      MIR_module_t m;
+      drop_ctx ();
+      if (setjmp (errjmp)) { ctx = NULL; gen_on = 0; continue; }
+      ctx = MIR_init ();
+      MIR_set_error_func (ctx, err_func);
+      MIR_scan_string (ctx, text);
+      for (m = DLIST_HEAD (MIR_module_t, *MIR_get_module_list (ctx)); m != NULL; m = DLIST_NEXT (MIR_module_t, m))
+        MIR_load_module (ctx, m);
+      MIR_load_external (ctx, "ext_i", ext_i);
+      MIR_load_external (ctx, "ext_d", ext_d);
+      MIR_load_external (ctx, "ext_cb", ext_cb);
+      strcpy (engine, "none");
+      printf ("K\n");
+    } else if (line[0] == 'S') { /* S : scan current text as ADDITIONAL modules into the live context and load them */
+      MIR_module_t m, last;
+      if (ctx == NULL) { printf ("N\n"); continue; }
+      if (setjmp (errjmp)) { ctx = NULL; gen_on = 0; continue; }
+      last = DLIST_TAIL (MIR_module_t, *MIR_get_module_list (ctx));
+      MIR_scan_string (ctx, text);
+      for (m = last == NULL ? DLIST_HEAD (MIR_module_t, *MIR_get_module_list (ctx)) : DLIST_NEXT (MIR_module_t, last);
+           m != NULL; m = DLIST_NEXT (MIR_module_t, m))
+        MIR_load_module (ctx, m);
+      printf ("K\n");
+    } else if (line[0] == 'J') { /* J <iface> [level] : MIR_link with interp|gen|lazy|bb interface */
+      char iface[32];
+      int level = 2;
+      if (ctx == NULL) { printf ("N\n"); continue; }
+      sscanf (line + 2, "%31s %d", iface, &level);
+      if (setjmp (errjmp)) { ctx = NULL; gen_on = 0; continue; }
+      alarm (120);
+      if (strcmp (iface, "interp") != 0 && !gen_on) {
+        MIR_gen_init (ctx);
+        gen_on = 1;
+        MIR_gen_set_optimize_level (ctx, level);
+      }
+      if (strcmp (iface, "interp") == 0) MIR_link (ctx, MIR_set_interp_interface, NULL);
+      else if (strcmp (iface, "gen") == 0) MIR_link (ctx, MIR_set_gen_interface, NULL);
+      else if (strcmp (iface, "lazy") == 0) MIR_link (ctx, MIR_set_lazy_gen_interface, NULL);
+      else if (strcmp (iface, "bb") == 0) MIR_link (ctx, MIR_set_lazy_bb_gen_interface, NULL);
+      else { printf ("F bad iface %s\n", iface); return 2; }
+      alarm (0);
+      strcpy (engine, "addr");
+      printf ("K\n");
+    } else if (line[0] == 'g') { /* g <func> [level] : explicit MIR_gen; prints P <entry address> <public addr> */
+      char fname[128];
+      int level = 2;
+      MIR_item_t f;
+      void *a;
+      if (ctx == NULL) { printf ("N\n"); continue; }
+      sscanf (line + 2, "%127s %d", fname, &level);
+      f = find_func (fname);
+      if (f == NULL) { printf ("F no function %s\n", fname); return 2; }
+      if (setjmp (errjmp)) { ctx = NULL; gen_on = 0; continue; }
+      if (!gen_on) { MIR_gen_init (ctx); gen_on = 1; MIR_gen_set_optimize_level (ctx, level); }
+      alarm (60);
+      a = MIR_gen (ctx, f);
+      alarm (0);
+      printf ("P %p %p\n", a, f->addr);
+    } else if (line[0] == 'a') { /* a <func> : prints P <public address (item->addr)> */
+      char fname[128];
+      MIR_item_t f;
+      if (ctx == NULL) { printf ("N\n"); continue; }
+      sscanf (line + 2, "%127s", fname);
+      f = find_func (fname);
+      if (f == NULL) { printf ("F no function %s\n", fname); return 2; }
+      printf ("P %p\n", f->addr);
+    } else if (line[0] == 'c' && (line[1] == 'i' || line[1] == 'a')) { /* ci|ca <func> <hexbuf> : call through MIR_interp / through item->addr */
+      char save[32];
+      strcpy (save, engine);
+      strcpy (engine, line[1] == 'i' ? "interp" : "addr");
+      memmove (line + 1, line + 2, strlen (line + 2) + 1);
+      line[0] = 'C';
+      goto call_cmd;
     } else if (line[0] == 'D') {
       drop_ctx ();
       printf ("K\n");
